@@ -138,7 +138,7 @@ static int run_fn() {
         std::string idx, fn, hex; long arg = 0;
         ls >> idx >> fn >> hex; ls >> arg;
         std::string bytes = unhex( hex );
-        alarm( 20 );
+        alarm( 3 );
         std::ostringstream r;
         if( fn == "readreal" ) {
             std::istringstream in( bytes );
